@@ -1930,6 +1930,23 @@ def run_ldap(items, run, mon):
                 ident_ = {'app': 'proid.app', 'calloc': ['cell', 'tenant/alloc'], 'part': ['part', 'cell']}[cls]
                 _lcls(cls)(adm_).update(ident_, copy.deepcopy(it['o2']))
                 back = a_.from_entry(copy.deepcopy(stored))
+                # the retrieval path: the real LdapObject.get asks the directory for the attributes of ITS schema()
+                # (the directory honours the selection) and decodes what comes back - it must be the object the stored
+                # entry decodes to
+                nsearch_ = len(conn_.searches)
+                got_ = _lcls(cls)(adm_).get(ident_, dirty=True)
+                del conn_.searches[nsearch_:]
+                # (get() hands the dn to from_entry, which derives the identity fields from it)
+                back_dn_ = a_.from_entry(copy.deepcopy(stored), _lcls(cls)(adm_).dn(ident_))
+                if stored and canon(got_) != canon(back_dn_):
+                    diff_ = sorted(k_ for k_ in set(got_ or {}) | set(back_dn_)
+                                   if canon((got_ or {}).get(k_)) != canon(back_dn_.get(k_)))
+                    mon.hit('ldap-get-differs-from-stored', LCLS[cls] + '.get',
+                            'stored %r decodes to %r in fields %r, get() returned %r' % (
+                                stored, {k_: back_dn_.get(k_) for k_ in diff_}, diff_,
+                                {k_: (got_ or {}).get(k_) for k_ in diff_}))
+                    continue
+                run.tags.add('ldap-get')
             except Exception as exc:  # pylint: disable=broad-except
                 mon.hit(uclause, LCLS[cls] + '.update', 'update of %r to %r raised %r' % (it['o'], it['o2'], exc))
                 continue
